@@ -9,7 +9,7 @@ import vcommon as vc
 
 SPEC = os.path.join(vc.VERIF, "spec", "Aliasing")
 TCFG = os.path.join(SPEC, "AliasingTrace.cfg")
-INV = "TypeOK IndepComplement Acyclic ParamOK SharedConstraint ConWithinHad CascadeLemma"
+INV = "TypeOK IndepComplement Acyclic ParamOK SharedConstraint ConWithinHad ChainTight WriteAllOrNothing CascadeLemma"
 PROPS = "Follows SharedIntersection CopyCarries OwnerLocal RefusalKeeps UnaliasLocal RenameKeeps"
 
 
@@ -30,17 +30,18 @@ def _cfg(path, spec, names, owners, vals, cons, nss, parsets, maxw, maps, live=F
 # name, spec, names, owners, vals, cons, namespaces, parameter sets, max writes, maps, liveness
 DESIGN = {
     "quick": [
-        ("one", "Spec", 3, 1, 2, "ConsNone", (0, 1), "ParAll", 2, "MapsNone", False),
+        ("one", "Spec", 3, 1, 2, "ConsNone", (0, 1, 2), "ParAll", 2, "MapsNone", False),
         ("two", "Spec", 2, 2, 2, "ConsNone", (0, 1), "ParAll", 1, "MapsNone", False),
         ("con", "Spec", 3, 1, 3, "ConsTwo", (0,), "ParAll", 0, "MapsNone", False),
-        ("bulk", "FairSpec", 3, 1, 2, "ConsNone", (0,), "ParAll", 1, "MapsAll", True),
+        ("bulk", "FairSpec", 3, 1, 2, "ConsNone", (0, 1), "ParAll", 0, "MapsAll", True),
     ],
     "thorough": [
-        ("one", "Spec", 4, 1, 2, "ConsNone", (0, 1), "ParSome", 2, "MapsNone", False),
+        ("one", "Spec", 4, 1, 2, "ConsNone", (0, 1, 2), "ParSome", 2, "MapsNone", False),
         ("two", "Spec", 3, 2, 2, "ConsNone", (0,), "ParAll", 1, "MapsNone", False),
         ("con", "Spec", 3, 1, 3, "ConsThree", (0,), "ParAll", 1, "MapsNone", False),
-        ("bulk", "FairSpec", 3, 1, 2, "ConsTwoV2", (0,), "ParSome", 1, "MapsAll", True),
-        ("bulk4", "FairSpec", 4, 1, 1, "ConsNone", (0,), "ParAll", 1, "MapsAll", True),
+        ("open", "Spec", 3, 1, 3, "ConsOpen", (0,), "ParAll", 0, "MapsNone", False),
+        ("bulk", "FairSpec", 3, 1, 2, "ConsTwoV2", (0, 1), "ParSome", 0, "MapsAll", True),
+        ("bulk4", "FairSpec", 4, 1, 1, "ConsNone", (0,), "ParAll", 0, "MapsAll", True),
     ],
 }
 
@@ -257,15 +258,6 @@ def run(tier, seed):
         os.remove(tr)
     ck.extra["event_mix"] = mix
     vc.log("C03: traces validated after %.0fs" % (time.time() - t0))
-    # 3. the known divergence: does the dedicated history still exhibit it?
-    tr = os.path.join(wd, "trace-probe.ndjson")
-    vc.run_driver(exe, ["--mode", "probe"], tr, timeout=120, env=budget)
-    before = len(ck.known)
-    rej = _validate(ck, tr, tag="p")
-    ck.extra["probe_short_circuit_reproduces"] = bool(rej)
-    if not rej:
-        vc.log("note: the known short-circuit divergence no longer reproduces (probe history accepted)")
-    os.remove(tr)
     if design is not None:
         _design_report(ck, design.result())
         ck.extra["model_selfcheck"] = ("Follows is violated (as it must be) when set-by-name uses the code's listener cascade SetAlg; "
@@ -276,17 +268,19 @@ def run(tier, seed):
     ck.extra["driver_skipped_outside_quantifier"] = skipped
     ck.exhaustive = True
     ck.rule = ("seeded random histories (12-40 calls, 2..6 parameters, up to 3 owners incl. copies, assignments into "
-               "non-empty owners, destruction, 4 namespaces, closed interval constraints over a pool of 4-6 reals) of alias / "
-               "unalias / bulk alias / set-by-name / bulk set / match / copy / assign / setNamespace; every name map over "
-               "%d names (+ an unknown source) on a fresh owner and after each possible earlier link; fixed histories for "
-               "chains, cycles, assignment, renaming, constraints; non-trivial = scenario with at least one state-changing call"
-               % (3 if quick else 4))
+               "non-empty owners, destruction; every other history is born and lives under non-empty namespaces with repeated "
+               "renames; open/closed interval constraints over a pool of 4-6 reals, sometimes with two bounds that agree in "
+               "6 digits; values any pool point, so refusals by the parameter's or a follower's constraint occur) of alias / "
+               "unalias / bulk alias (map spelled with or without the namespace) / set-by-name / bulk set / match / copy / "
+               "assign / setNamespace; every name map over %d names (+ an unknown source) on a fresh owner and after each "
+               "possible earlier link; 12 fixed histories (chains, cycles, assignment, namespaces, constraint refusals, open "
+               "bounds); non-trivial = scenario with at least one state-changing call" % (3 if quick else 4))
     ck.distinct = ck.traces
-    ck.assumptions = ["TLC; CommunityModules Json", "harness/drv_alias.cpp observes through public const queries only",
-                      "values and bounds are compared by pool index (order type); constraints are closed intervals whose bounds "
-                      "differ in their 6-digit description",
-                      "writes whose value a follower's constraint rejects, bulk-set lists giving a parameter and one of its "
-                      "ancestors different values, and name maps under a non-empty namespace are outside the quantifier (not generated)"]
+    ck.assumptions = ["TLC; CommunityModules Json", "harness/drv_alias.cpp observes through public const queries only "
+                      "(name queries asked with and without the namespace, namespace stripped from the answers)",
+                      "values and bounds are compared by pool index (order type)",
+                      "bulk-set lists giving a parameter and one of its listed ancestors different values are outside the "
+                      "quantifier (not generated); under a non-empty namespace a bulk alias may refuse any non-empty map"]
     return ck.finish()
 
 
